@@ -217,6 +217,7 @@ def runC17 (c : CaseIn) : Array String := Id.run do
     | _ :: _ :: "len" :: l :: _ => nat! l
     | _ => 0
   let g := Truth.init len
+  let name := c.header.getD 1 ""
   let mut out : Array String := #[]
   let mut stopHung := false
   for (ln, line) in c.lines do
@@ -226,15 +227,18 @@ def runC17 (c : CaseIn) : Array String := Id.run do
     | ["stop"] =>
       if obs == "HANG" then
         stopHung := true
-        out := out.push s!"ORACLE-FAIL C17 case {c.num} line {ln}: shape=stop-blocked-behind-getcfilter Stop did not return within 15 s ({" ".intercalate c.header})"
-    | ["call", name] =>
+        let shape := if name == "stop" then "stop-hang" else name
+        out := out.push s!"ORACLE-FAIL C17 case {c.num} line {ln}: shape={shape} Stop did not return within 15 s ({" ".intercalate c.header})"
+    | ["call", call] =>
       match words obs with
       | ["hung", k] =>
         if nat! k > 0 && !stopHung then
-          let shape := if peerQueryCalls.contains name then "query-reply-lost-at-stop" else s!"call-hang-{name}"
-          out := out.push s!"ORACLE-FAIL C17 case {c.num} line {ln}: shape={shape} {k} call(s) of {name} had not returned 3 s after Stop returned"
+          let shape := if name != "stop" then name
+            else if peerQueryCalls.contains call then "query-reply-lost-at-stop" else s!"call-hang-{call}"
+          out := out.push s!"ORACLE-FAIL C17 case {c.num} line {ln}: shape={shape} {k} call(s) of {call} had not returned 3 s after Stop returned"
       | ["HANG"] =>
-        out := out.push s!"ORACLE-FAIL C17 case {c.num} line {ln}: shape=call-hang-{name} {name} did not return within its deadline"
+        let shape := if name != "stop" then name else s!"call-hang-{call}"
+        out := out.push s!"ORACLE-FAIL C17 case {c.num} line {ln}: shape={shape} {call} did not return within 3 s"
       | _ => pure ()
     | ["reopen"] =>
       match words obs with
